@@ -44,12 +44,13 @@ class Interp:
         r.update(kw)
         return r
 
-    def apply(self, num, group=None, args=(), kwargs=None, raising=(), fname="fn", swallow=0, proxy=False, park=None, park_from=0):
+    def apply(self, num, group=None, args=(), kwargs=None, raising=(), fname="fn", swallow=0, proxy=False, park=None, park_from=0,
+              decorated=False):
         r = self._newreq("apply", num=num, args=args, kwargs=kwargs)
         self.w.op("apply", num, group)
         fn = self.w.worker(r["idx"], fname, swallow=swallow, park=park, park_from=park_from)
-        if raising or proxy:
-            fn = self.w.callsite(r["idx"], fn, raising, proxy)
+        if raising or proxy or decorated:
+            fn = self.w.callsite(r["idx"], fn, raising, proxy, decorated)
         r["raising"] = raising
         try:
             r["group"] = self.pool.apply(fn, args=args, kwargs=kwargs, num=num, group_name=group,
